@@ -50,7 +50,7 @@ def run(pid, tier, seed, njobs=None):
         j["probe"] = {"reader": reader, "freeze_after": rng.randint(0, max(est, 10)), "max": 200000}
         j["nops_reader"] = len(rd)
         jobs.append(j)
-    res = lib.run_jobs(jobs, "c12", procs=8, timeout=900)
+    res = lib.run_jobs(jobs, "c12", procs=8, timeout=1800)
     projected, byid = [], {}
     frozen_in_lock = 0
     for job, trace, crash in res:
